@@ -16,6 +16,7 @@ let err_string (e : Prune.walk_err option) : string = match e with
   | Some (Prune.WeErrno e) -> "errno:" ^ errno_string e
   | Some Prune.WeFuel -> "fuel"
   | Some Prune.WeBlocked -> "blocked"
+  | Some Prune.WeInterrupted -> "interrupted"
 
 let fuel = nat_of_int 64
 
